@@ -416,6 +416,12 @@ diskdump_read_page(struct page_io *pio)
 	pd.flags = dump32toh(ctx, pd.flags);
 	pd.page_flags = dump64toh(ctx, pd.page_flags);
 
+	/* Missing data would read as zeroes, however much is asked for. */
+	ret = check_file_extent(ctx, pdmap->fidx, pd.offset, pd.size,
+				"Page data");
+	if (ret != KDUMP_OK)
+		return ret;
+
 	/* read page data */
 	if (pd.flags & DUMP_DH_COMPRESSED) {
 		mutex_lock(&ctx->shared->cache_lock);
